@@ -234,8 +234,15 @@ Inductive action :=
   | Add (a : nat) (iv : N) (i : nat)     (* idle adder a calls add_timer(iv, data i): its clock reading; i is fresh *)
   | Del (r : nat) (L : N) (i : nat)      (* idle remover r calls del_timer with the handle (L, i) it owns *)
   | AStep (a : nat) | RStep (r : nat)    (* the next shared access of that call *)
-  | TStep (c : N).                       (* the next shared access of the timer thread; c = which list the heap pop
+  | TStep (c : N)                        (* the next shared access of the timer thread; c = which list the heap pop
                                             takes among the minima (ignored elsewhere) *)
+  | TClock (v : N).                      (* OVER-APPROXIMATION: just before one of its two deadline comparisons (heap
+                                            peek at SK, pop_if predicate at P2) the timer thread may replace its clock
+                                            reading by a later one, v, not beyond the clock (as if `now()` had been
+                                            called later).  The code reads the clock once per round (TN); every behaviour of
+                                            the code is a behaviour of the model without TClock, the theorems hold with
+                                            it.  It exists for the trace acceptor, which only knows a lower bound of the
+                                            virtual clock between two logged clock values. *)
 
 Definition astep (s : st) (a : nat) : option st :=
   let x := A s a in
@@ -363,6 +370,10 @@ Definition step (s : st) (x : action) : option st :=
   | AStep a => astep s a
   | RStep r => rstep s r
   | TStep c => tstep s c
+  | TClock v => match tpc s with
+                | SK | P2 => if (tnow s <=? v) && (v <=? now s) then Some (wTnow s v) else None
+                | _ => None
+                end
   end.
 
 Definition init : st :=
